@@ -1411,14 +1411,19 @@ func (c *connection) Join(conn net.Conn, id string, dial gen.NetworkDial, tail [
 			defer c.log.Trace("connection %s left the pool", conn.RemoteAddr().String())
 		}
 
+		redialed := false
 	re: // reconnected
 		if lib.Trace() {
 			c.log.Trace("joined new connection %s to the pool", conn.RemoteAddr().String())
 		}
 
-		c.serve(pi.connection, tail)
+		received := c.serve(pi.connection, tail)
 
-		if dial != nil {
+		// A re-dialed link that the peer closed without a single frame is a refused join: the
+		// peer has dropped this connection (its acceptor answers the Join handshake before it
+		// looks the connection up). Re-dialing again would loop forever and this node would
+		// never see the connection as lost.
+		if dial != nil && (redialed == false || received > 0) {
 			pool_dsn := []string{}
 			pool_dsn = append(pool_dsn, c.pool_dsn...)
 			rand.Shuffle(len(pool_dsn), func(i, j int) {
@@ -1436,6 +1441,7 @@ func (c *connection) Join(conn net.Conn, id string, dial gen.NetworkDial, tail [
 				}
 				pi.connection = nc
 				tail = t
+				redialed = true
 
 				goto re
 			}
@@ -1477,7 +1483,8 @@ func (c *connection) Terminate(reason error) {
 	}
 }
 
-func (c *connection) serve(conn net.Conn, tail []byte) {
+// serve returns the number of frames received over this link
+func (c *connection) serve(conn net.Conn, tail []byte) int {
 
 	recvN := 0
 	recvNQ := len(c.recvQueues)
@@ -1497,21 +1504,21 @@ func (c *connection) serve(conn net.Conn, tail []byte) {
 			}
 			lib.ReleaseBuffer(buf)
 			conn.Close()
-			return
+			return recvN
 		}
 
 		if buf.B[0] != protoMagic {
 			c.log.Error("recevied malformed packet from %s (incorrect proto)", conn.RemoteAddr())
 			lib.ReleaseBuffer(buf)
 			conn.Close()
-			return
+			return recvN
 		}
 
 		if buf.B[1] != protoVersion {
 			c.log.Error("recevied malformed packet from %s (incorrect proto version)", conn.RemoteAddr())
 			lib.ReleaseBuffer(buf)
 			conn.Close()
-			return
+			return recvN
 		}
 
 		recvN++
